@@ -5,7 +5,7 @@
 From Coq Require Import String List NArith Bool.
 Import ListNotations.
 From GMQ Require Import Store.KeyFmt Store.gen.KeyFmtGen Store.KV Store.SrvStore Store.MsgStore Store.StoreSpec
-  Proofs.StoreKVProofs Proofs.StoreKeyProofs.
+  Proofs.StoreKVProofs Proofs.StoreKeyProofs Proofs.StoreSrvProofs.
 Open Scope N_scope.
 
 (* ---- (a) the key functions built from the GENERATED formats: shape, injectivity ---- *)
@@ -57,6 +57,58 @@ Proof.
     (conj (proj1 vhost_key_collision) (conj vhost_collision_neq vhost_collision_wrong)))))).
 Qed.
 Print Assumptions C09_vhost_with_dot_refuted.
+
+(* ---- (c) the round trip: after ANY sequence of AddVhost/AddExchange/DelExchange/AddQueue/DelQueue/AddBinding/
+   DelBinding operations, with a Kill (SKill) between any two of them, the Get* functions return exactly the
+   entities added and not deleted (topo_spec: last declaration per identity, unless deleted since), each with
+   exactly the fields the stored record keeps (restore_* = Unmarshal after Marshal).  ops_ok is the name
+   condition as a boolean predicate: vhosts without '.', binding queue/exchange without '_', names that fit a
+   shortstr.  (Binding identity is (vhost, queue, exchange, key): see C09_binding_arguments_refuted.) ---- *)
+Theorem C09_topology_roundtrip_partial : forall ops v, ops_ok ops = true ->
+  (exists l, srv_get_queues (srv_run ops) v = Some l /\
+     forall r, In r l <-> exists n q, topo_spec ops (IQueue v n) = Some (EQueue q) /\ r = restore_queue q) /\
+  (exists l, srv_get_exchanges (srv_run ops) v = Some l /\
+     forall r, In r l <-> exists n x, topo_spec ops (IExchange v n) = Some (EExchange x) /\ r = restore_exchange x) /\
+  (exists l, srv_get_bindings (srv_run ops) v = Some l /\
+     forall r, In r l <-> exists q e k b, topo_spec ops (IBinding v q e k) = Some (EBinding b) /\ r = restore_binding b).
+Proof. exact topology_roundtrip. Qed.
+Print Assumptions C09_topology_roundtrip_partial.
+
+(* entities whose unstored flags are at their defaults come back exactly *)
+Theorem C09_stored_fields_exact :
+  (forall q, short (qu_name q) = true -> queue_fully_stored q = true -> restore_queue q = q) /\
+  (forall e, short (ex_name e) = true -> exchange_fully_stored e = true -> restore_exchange e = e).
+Proof. exact (conj restore_queue_id restore_exchange_id). Qed.
+Print Assumptions C09_stored_fields_exact.
+
+(* F22: what is not stored *)
+Theorem C09_exchange_flags_refuted : exists e, short (ex_name e) = true /\ restore_exchange e <> e.
+Proof. exact restore_exchange_refuted. Qed.
+Theorem C09_queue_owner_refuted : exists q, short (qu_name q) = true /\ restore_queue q <> q.
+Proof. exact restore_queue_refuted. Qed.
+Theorem C09_binding_match_any_refuted : exists b, bd_match_any b = true /\ bd_match_any (restore_binding b) = false.
+Proof. exact restore_binding_refuted. Qed.
+Print Assumptions C09_binding_match_any_refuted.
+
+(* F21: the binding key ignores the arguments - of two headers bindings that differ only there, one survives *)
+Theorem C09_binding_arguments_refuted : exists v b1 b2, bd_args b1 <> bd_args b2 /\
+  srv_get_bindings (srv_run [SAddBinding v b1; SAddBinding v b2]) v = Some [b2].
+Proof.
+  exact (ex_intro _ _ (ex_intro _ _ (ex_intro _ _ (conj binding_args_differ binding_args_overwrite)))).
+Qed.
+Print Assumptions C09_binding_arguments_refuted.
+
+(* non-vacuity of the round trip *)
+Example C09_roundtrip_example :
+  let q1 := {| qu_name := bs "orders.eu"; qu_conn_id := 0; qu_exclusive := false; qu_autodelete := false; qu_durable := true |} in
+  let q2 := {| qu_name := bs "tmp"; qu_conn_id := 0; qu_exclusive := false; qu_autodelete := true; qu_durable := true |} in
+  let x := {| ex_name := bs "logs"; ex_type := 2; ex_durable := true; ex_autodelete := false; ex_internal := false; ex_system := false |} in
+  let b := {| bd_queue := bs "orders.eu"; bd_exchange := bs "logs"; bd_key := bs "eu.#"; bd_args := []; bd_topic := true; bd_match_any := false |} in
+  let ops := [SAddVhost (bs "/") true; SAddExchange (bs "/") x; SAddQueue (bs "/") q1; SKill; SAddQueue (bs "/") q2;
+              SAddBinding (bs "/") b; SAddQueue (bs "other") q2; SKill; SDelQueue (bs "/") q2; SKill] in
+  ops_ok ops = true /\ srv_get_queues (srv_run ops) (bs "/") = Some [q1] /\ srv_get_exchanges (srv_run ops) (bs "/") = Some [x] /\
+  srv_get_bindings (srv_run ops) (bs "/") = Some [b] /\ srv_get_queues (srv_run ops) (bs "other") = Some [q2].
+Proof. exact roundtrip_example. Qed.
 
 (* Non-vacuity of the name conditions *)
 Example C09_names_example : dotfree (bytes_of_string "/") = true /\ usfree (bytes_of_string "orders.eu") = true /\
